@@ -5,6 +5,7 @@ import (
 	"fmt"
 	"math/rand"
 	"net/http"
+	"os"
 	"strings"
 	"time"
 
@@ -19,11 +20,25 @@ import (
 
 type selectSlice struct{}
 
-func init() { register(selectSlice{}) }
+func init() {
+	// A panic inside a goroutine of the client cannot be recovered by the harness, so the
+	// cases run in a long-lived worker child (this same binary); a crash of the worker is
+	// an observation (`crash:<message>`) and a direct violation with the case as replay.
+	if os.Getenv("VERIF_SELECT_WORKER") == "1" {
+		selWorkerMain()
+		os.Exit(0)
+	}
+	register(selectSlice{})
+}
 
 func (selectSlice) Name() string { return "select" }
 
-func (selectSlice) NewRunner() Runner { return &selRunner{c: &selCase{}} }
+func (selectSlice) NewRunner() Runner {
+	if os.Getenv("VERIF_SELECT_INPROC") == "1" {
+		return &selRunner{c: &selCase{}}
+	}
+	return &selProxyRunner{}
+}
 
 type selRunner struct {
 	c      *selCase
